@@ -322,10 +322,10 @@ class VerusUnit:
     def run(self, canaries=True, rlimit=None, timeout=900, threads=16):
         """Runs the unit; when the verifier reports a method the unit does not name (a refactoring introduced a helper),
         the helper is extracted automatically and the unit is run again (at most 3 rounds)."""
-        auto, opaque = set(), set()
+        auto, opaque, inline = set(), set(), set()
         res = None
-        for _round in range(5):
-            res = self._run_once(canaries, rlimit, timeout, threads, auto, opaque)
+        for _round in range(6):
+            res = self._run_once(canaries, rlimit, timeout, threads, auto, opaque, inline)
             missing, bad_helpers = set(), set()
             for te in res.tool_errors:
                 m = re.search(r"no (?:method|function or associated item) named `(\w+)` found", te.get("message", ""))
@@ -337,16 +337,21 @@ class VerusUnit:
             missing -= auto
             bad_helpers -= opaque
             if not missing and not bad_helpers:
+                # helpers that ended up without a contract: replace their statement-position calls by their bodies (R37) and run again
+                cl = set(getattr(self.weaver, "auto_contractless", [])) - inline if getattr(self, "weaver", None) else set()
+                if cl and res.status != "undecided":
+                    inline |= cl
+                    continue
                 return res
             auto |= missing
             opaque |= bad_helpers
         return res
 
-    def _run_once(self, canaries, rlimit, timeout, threads, auto, opaque=()):
+    def _run_once(self, canaries, rlimit, timeout, threads, auto, opaque=(), inline=()):
         t0 = time.time()
         res = UnitResult(self.unit, dict(self.config), os.path.join(self.outdir, self.stem() + ".rs"))
         try:
-            w = Weaver(self.repo, self.spec, self.config, auto_request=auto, auto_opaque=opaque).run()
+            w = Weaver(self.repo, self.spec, self.config, auto_request=auto, auto_opaque=opaque, auto_inline=inline).run()
         except AnchorLoss as e:
             res.status = "undecided"
             res.undecided_reason = "anchor loss: %s" % e
@@ -358,7 +363,7 @@ class VerusUnit:
         text = w.text()
         self.weaver = w
         res.fn_infos = w.fns
-        res.dropped = w.dropped + ["auto-extracted helper: %s" % h for h in w.auto_helpers]
+        res.dropped = w.dropped + ["auto-extracted helper: %s" % h for h in w.auto_helpers] + ["R37 %s" % x for x in w.inlined]
         res.rewrites = w.rewrite_log
         res.clause_labels = sorted({(l.fn, l.label) for l in w.out if l.label})
         res.label_tags = {(l.fn, l.label): tuple(l.tags) for l in w.out if l.label}
@@ -555,6 +560,20 @@ class VerusUnit:
                 name = "%s::%s@%s" % (fn_name, kind, (Lp.ofile + ":" + str(Lp.oline)) if Lp else "?")
             is_hint = bool(Lp is not None and str(Lp.ofile).startswith("specs/") and kind in ("assert", "pre"))
             res.failures.append(Failure(fn_name, kind, label, tuple(tags), msg, "; ".join(wheres), name, d.get("rendered", "")[:3000], is_hint))
+        # A function that calls an auto-extracted helper for which no contract exists cannot be decided modularly: the caller's
+        # obligations fail for lack of information about the helper whether or not the code is right. Such failures are not a
+        # verdict (same treatment as a failed proof hint: undecided, the witness searchers get their chance).
+        contractless = sorted(set(getattr(w, "auto_contractless", [])))
+        if contractless and res.failures:
+            lines_ = w.text().split("\n")
+            for fl in res.failures:
+                span = [f for f in fns if f["name"] == fl.fn]
+                if not span:
+                    continue
+                body_ = "\n".join(lines_[span[0]["first"] - 1:span[0]["last"]])
+                if any(re.search(r"\b%s\s*\(" % re.escape(h), body_) for h in contractless if h != fl.fn.split("::")[-1]):
+                    fl.hint = True
+                    fl.message += " [calls an auto-extracted helper without a contract: %s]" % ", ".join(contractless)
         if res.tool_errors:
             res.status = "undecided"
             res.undecided_reason = "verus reported %d non-obligation error(s): %s" % (
